@@ -10,15 +10,17 @@ wt=/tmp/wtc/$id
 rm -rf $wt; mkdir -p /tmp/wtc
 git -C /repo worktree add -q --detach $wt HEAD || exit 2
 cd $wt
+MODDIR=${MODDIR:-.}
 demo=$(ls $src/demo*_test.go $src/demo_test.go 2>/dev/null | head -1)
-run() { timeout 1500 go test -vet=off -count=1 "$@" 2>&1 | tail -15; return ${PIPESTATUS[0]}; }
+run() { (cd $wt/$MODDIR && timeout 1500 go test -vet=off -count=1 "$@" 2>&1 | tail -15; exit ${PIPESTATUS[0]}); }
 res=""
 # 1. demo passes without the patch
 cp $demo $demodir/zz_seed_demo_test.go
-run ./$demodir -run 'TestC[0-9]+|Demo|Seed' > /tmp/wtc/$id.demo_clean.log; r1=$?
+rel=$(realpath --relative-to=$wt/$MODDIR $wt/$demodir)
+run ./$rel -run 'TestC[0-9]+|Demo|Seed' > /tmp/wtc/$id.demo_clean.log; r1=$?
 # 2. apply the patch: demo fails
 git apply $src/patch.diff || { echo "patch does not apply"; exit 2; }
-run ./$demodir -run 'TestC[0-9]+|Demo|Seed' > /tmp/wtc/$id.demo_patched.log; r2=$?
+run ./$rel -run 'TestC[0-9]+|Demo|Seed' > /tmp/wtc/$id.demo_patched.log; r2=$?
 # 3. existing tests (without the demo) pass with the patch
 rm -f $demodir/zz_seed_demo_test.go
 run $pkgs > /tmp/wtc/$id.tests_patched.log; r3=$?
